@@ -1034,7 +1034,7 @@ func writeLevel(codec string, w io.Writer, src []byte, level int, useDefault boo
 // per-P pools hand the later calls whatever the failed ones gave back), or spread over a few goroutines.
 // Each later call's output must decode to exactly its own input and contain no earlier payload's marker.
 func runFailRounds(r *mon.Run) {
-	n := r.N(400, 12_000)
+	n := r.N(400, 8_000)
 	mon.Parallel(n, 0, func(i int) {
 		ci := baseFail + i
 		if !r.Want(ci) {
@@ -1479,7 +1479,7 @@ func runSaturation(r *mon.Run) {
 				// brotli >= 2 and zstd other than "default" keep 10-50 MiB per encoder state: with the overflow
 				// compressed on the callers' goroutines that is a memory load of its own, not this property
 				satPlan{Codec: "br", API: apiAppendLevel, Level: 1, Load: load, Procs: 2},
-				satPlan{Codec: "zstd", API: apiAppendLevel, Level: fasthttp.CompressZstdDefault, Load: load, Procs: 1})
+				satPlan{Codec: "zstd", API: apiAppendLevel, Level: fasthttp.CompressZstdDefault, Load: math.Min(load, 1.25), Procs: 1}) // (1.5 costs minutes and GiBs of encoder states on a loaded machine)
 		}
 		// Write*Level to a plain io.Writer: every stackless.Writer owns a real encoder state from creation to
 		// release whatever the tree does on overflow, so thousands of simultaneous calls mean thousands of
